@@ -5,9 +5,16 @@ import contextlib
 import io
 
 
-def kind_msg(kd, dt):
+class IntSub(int):
+    """A non-negative integer that is not exactly an `int` (like enum.IntEnum
+    members or numpy integers): still an integer delta time."""
+
+
+def kind_msg(kd, dt, odd_int=False):
     """Real message for kind index kd (1-based, see SmfWire.Kinds)."""
     import mido
+    if odd_int and isinstance(dt, int) and dt >= 0:
+        dt = IntSub(dt)
     M, MM, UM = mido.Message, mido.MetaMessage, mido.UnknownMetaMessage
     if dt == -2:
         dt = 0.5                   # non-integer time
